@@ -6,6 +6,7 @@ SC  complex scalar = pair of SV
 SD  dual number = value + eps * tangent (forward-mode derivative)
 """
 import numbers
+import os
 import time
 from fractions import Fraction
 
@@ -13,6 +14,7 @@ import numpy as np
 import z3
 
 from . import terms as T
+from .sampler import Sampler
 
 
 class Infeasible(BaseException):
@@ -92,6 +94,12 @@ class Engine(object):
         self.reset_stats()
         self.active = False
         self.merge_abs = False
+        self.skip_undefined = False
+        self.skipped_undefined = 0
+        self.sampler = Sampler()
+        self.use_sampler = not os.environ.get('VERIF_NOSAMPLER')
+        self.sampler_hits = 0
+        self.snap = 0          # >0: concrete floats within 1e-13 of a fraction with denominator <= snap are read as it
         self.hash_tokens = False
         self.branch_timeout_ms = 10000
         self.max_paths = 10 ** 9
@@ -103,6 +111,8 @@ class Engine(object):
         self.npaths = 0
         self.ninfeasible = 0
         self.unknown_branches = 0
+        self.sampler_hits = 0
+        self.skipped_undefined = 0
 
     def _begin(self, prefix):
         self.prefix = list(prefix)
@@ -117,6 +127,7 @@ class Engine(object):
         self.notes = []
         self.solver.reset()
         self.solver.set('timeout', self.branch_timeout_ms)
+        self.sampler.reset()
 
     # -- solver access
     def _check(self, *extra, terms=()):
@@ -174,6 +185,8 @@ class Engine(object):
     def add_axiom(self, t):
         if t.op == 'true':
             return
+        if T.FOLD and t.op == 'false' or (T.FOLD and not T.free_vars([t])):
+            return          # axiom instance over folded (rounded) constants: carries no information
         self.axioms.append(t)
         if not self.nonlinear and _is_nonlinear([t]):
             self.nonlinear = True
@@ -195,10 +208,14 @@ class Engine(object):
             return
         if cond.op == 'false':
             raise Infeasible()
+        ct = self.sampler.witness(self.pc, self.axioms, cond)[0] if self.use_sampler else None
         self.pc.append(cond)
         if not self.nonlinear and _is_nonlinear([cond]):
             self.nonlinear = True
         self.solver.add(T.to_z3(cond))
+        if ct:
+            self.sampler_hits += 1
+            return
         r = self._check()
         if r == 'unknown':
             r = self._fresh_check(z3.BoolVal(True))
@@ -220,16 +237,31 @@ class Engine(object):
             return False
         if not self.active:
             raise EngineGap('symbolic branch outside an explored function')
+        # already decided on this path (same hash-consed condition): no solver call, no trace entry
+        # (deterministic: the path condition at this point is the same on every re-execution)
+        nid = T.not_(cond).id
+        for c in self.pc:
+            if c.id == cond.id:
+                return True
+            if c.id == nid:
+                return False
+        if self.use_sampler:
+            # conditions over constants only (e.g. sqrt(5) < 1e-10): decided by evaluation when the margin is clear
+            gv = self.sampler.ground(cond)
+            if gv is not None:
+                return gv
         i = len(self.trace)
         if i < len(self.prefix):
             d = self.prefix[i]
             self.trace.append((d, False))
         else:
             zc = T.to_z3(cond)
-            rt = self._check(zc, terms=(cond,))
+            ct, cf = self.sampler.witness(self.pc, self.axioms, cond) if self.use_sampler else (None, None)
+            self.sampler_hits += bool(ct) + bool(cf)
+            rt = 'sat' if ct else self._check(zc, terms=(cond,))
             if rt == 'unknown' and not self.nonlinear:
                 rt = self._fresh_check(zc)
-            rf = self._check(z3.Not(zc), terms=(cond,))
+            rf = 'sat' if cf else self._check(z3.Not(zc), terms=(cond,))
             if rf == 'unknown' and not self.nonlinear:
                 rf = self._fresh_check(z3.Not(zc))
             if rt == 'unknown' or rf == 'unknown':
@@ -320,6 +352,8 @@ def lift(x):
             ENG.poison.add(name)
             ENG.notes.append('undefined: concrete %r in symbolic arithmetic' % x)
             return T.var(name)
+        if T.SNAP:
+            return T.const(T.snap_float(x))
         return T.const(x)
     if isinstance(x, Fraction):
         return T.const(x)
@@ -374,6 +408,33 @@ def _tob(o):
     return None
 
 
+def _sum_of_squares(t):
+    """syntactically a sum of squares (times non-negative constants): non-negative without asking the solver"""
+    stack = [t]
+    while stack:
+        x = stack.pop()
+        if x.op == 'add':
+            stack.extend(x.args)
+        elif x.op == 'const':
+            if x.val < 0:
+                return False
+        elif x.op == 'mul':
+            a, b = x.args
+            if a is b:
+                continue
+            if a.op == 'const' and a.val >= 0:
+                stack.append(b)
+            elif b.op == 'const' and b.val >= 0:
+                stack.append(a)
+            else:
+                return False
+        elif x.op == 'to_real':
+            stack.append(x.args[0])
+        else:
+            return False
+    return True
+
+
 def _definedness(den, what):
     """Fork on a zero denominator; on the zero branch return a poison symbol."""
     if den.op == 'const':
@@ -381,7 +442,15 @@ def _definedness(den, what):
             return None
         nz = False
     else:
-        nz = ENG.branch(T.not_(T.eq(den, T.const(0) if den.sort == T.R else T.iconst(0))))
+        nzc = T.not_(T.eq(den, T.const(0) if den.sort == T.R else T.iconst(0)))
+        if ENG.skip_undefined:
+            # configuration-level choice: inputs on which a denominator vanishes are outside the claim
+            # (assumed away instead of explored as a poisoned path); counted
+            if not any(c.id == nzc.id for c in ENG.pc):
+                ENG.skipped_undefined += 1
+                ENG.assume(nzc)
+            return None
+        nz = ENG.branch(nzc)
     if nz:
         return None
     name = ENG.fresh_name('undef')
@@ -518,7 +587,7 @@ class SV(object):
             r = math.isqrt(t.val.numerator) if t.val.denominator == 1 else None
             if r is not None and r * r == t.val.numerator:
                 return SV(T.const(r))
-        if not ENG.branch(T.le(T.const(0), t)):
+        if not _sum_of_squares(t) and not ENG.branch(T.le(T.const(0), t)):
             name = ENG.fresh_name('undef')
             ENG.poison.add(name)
             ENG.notes.append('undefined: sqrt of a negative number')
